@@ -39,8 +39,63 @@ def raised_name(st: ast.AST) -> str:
     return "?"
 
 
+def _pure_expr(e: ast.AST) -> bool:
+    if isinstance(e, (ast.Constant, ast.Name)):
+        return True
+    if isinstance(e, ast.Attribute):
+        return _pure_expr(e.value)
+    if isinstance(e, ast.Subscript):
+        return _pure_expr(e.value) and _pure_expr(e.slice)
+    if isinstance(e, (ast.Tuple, ast.List)):
+        return all(_pure_expr(x) for x in e.elts)
+    if isinstance(e, ast.Compare):
+        return _pure_expr(e.left) and all(_pure_expr(c) for c in e.comparators)
+    if isinstance(e, ast.BoolOp):
+        return all(_pure_expr(v) for v in e.values)
+    if isinstance(e, ast.UnaryOp):
+        return _pure_expr(e.operand)
+    if isinstance(e, ast.Call) and isinstance(e.func, ast.Name) and e.func.id in ("isinstance", "len", "bool", "callable", "hasattr", "getattr"):
+        return all(_pure_expr(a) for a in e.args)
+    return False
+
+
+def _subst(e: ast.AST, env: Dict[str, ast.AST]) -> ast.AST:
+    import copy
+
+    class S(ast.NodeTransformer):
+        def visit_Name(self, n: ast.Name):
+            if isinstance(n.ctx, ast.Load) and n.id in env:
+                return copy.deepcopy(env[n.id])
+            return n
+    return S().visit(copy.deepcopy(e))
+
+
+def _bind(env: Dict[str, ast.AST], target: ast.AST, value: ast.AST, params) -> None:
+    if isinstance(target, ast.Name):
+        v = _subst(value, env) if env else value
+        if _pure_expr(v) and target.id not in params and not any(isinstance(x, ast.Name) and x.id == target.id for x in ast.walk(v)):
+            env[target.id] = v
+        else:
+            env.pop(target.id, None)
+        # a binding that mentions a name re-bound later would go stale: drop bindings that mention this target
+        for k in [k for k, vv in env.items() if k != target.id and any(isinstance(x, ast.Name) and x.id == target.id for x in ast.walk(vv))]:
+            env.pop(k, None)
+    elif isinstance(target, ast.Tuple) and isinstance(value, ast.Tuple) and len(target.elts) == len(value.elts):
+        vals = [_subst(v, env) if env else v for v in value.elts]
+        for t_, v in zip(target.elts, vals):
+            if isinstance(t_, ast.Name) and _pure_expr(v) and t_.id not in params:
+                env[t_.id] = v
+            elif isinstance(t_, ast.Name):
+                env.pop(t_.id, None)
+    else:
+        for x in ast.walk(target):
+            if isinstance(x, ast.Name):
+                env.pop(x.id, None)
+
+
 def outcomes(fn: FunctionInfo, atom_of: AtomFn, max_nodes: int = 60) -> List[PathOutcome]:
     cfg = cfg_of(fn)
+    params = set(fn.params)
     if len(cfg.nodes) > max_nodes:
         raise AnalysisError(f"decision function {fn.short} too large for a truth table ({len(cfg.nodes)} nodes)")
     res: List[PathOutcome] = []
@@ -49,9 +104,19 @@ def outcomes(fn: FunctionInfo, atom_of: AtomFn, max_nodes: int = 60) -> List[Pat
         unknown: List[str] = []
         consistent = True
         last_stmt: Optional[CNode] = None
+        env: Dict[str, ast.AST] = {}  # locals bound on this path to a pure expression (path-sensitive: `permitted = self.allowed` on one branch)
         for n, lab in path:
+            if n.kind == "stmt" and isinstance(n.ast, ast.Assign) and len(n.ast.targets) == 1:
+                _bind(env, n.ast.targets[0], n.ast.value, params)
+            elif n.kind == "stmt" and isinstance(n.ast, (ast.AugAssign, ast.AnnAssign, ast.For, ast.With, ast.Delete)):
+                for x in ast.walk(n.ast):
+                    if isinstance(x, ast.Name) and isinstance(x.ctx, (ast.Store, ast.Del)):
+                        env.pop(x.id, None)
             if n.kind == "test" and lab in ("true", "false"):
-                a = atom_of(n.ast)  # type: ignore[arg-type]
+                t_ast = _subst(n.ast, env) if env else n.ast
+                a = atom_of(t_ast)  # type: ignore[arg-type]
+                if a is None and t_ast is not n.ast:
+                    a = atom_of(n.ast)  # type: ignore[arg-type]
                 if a is None:
                     unknown.append(norm(n.ast))
                     continue
